@@ -88,6 +88,125 @@ def sweep(ph, qs, exp, scale, factor):
     return runs, worst, bad
 
 
+def fc_variants(fc):
+    """the same VALUES in every memory layout / carrier of spec/DynMatLayout.tla -> {mem: (array_like, vclass)}"""
+    C = np.array(fc, dtype="double", order="C")
+    n0, n1 = C.shape[:2]
+    F = np.asfortranarray(C)
+    H = np.ascontiguousarray(C.transpose(0, 2, 1, 3).reshape(3 * n0, 3 * n1))      # Hessian layout
+    T = H.reshape(n0, 3, n1, 3).transpose(0, 2, 1, 3) * 1.0                          # owns data, permuted strides
+    big = np.full((2 * n0,) + C.shape[1:], 7.25)
+    big[::2] = C
+    V = big[::2]
+    big2 = np.full((n0 + 2,) + C.shape[1:], -3.5)
+    big2[1:n0 + 1] = C
+    SUB = big2[1:n0 + 1]
+    f32 = C.astype(np.float32)
+    ref = np.array(f32, dtype="double", order="C")
+    out = {"C": (C, "exact"), "F": (F, "exact"), "T": (T, "exact"), "view": (V, "exact"), "sub": (SUB, "exact"),
+           "list": (C.tolist(), "exact"), "f32": (f32, "f32"), "f32ref": (ref, "f32")}
+    # the constructions really have the advertised layouts and the same values (machinery self-check)
+    assert C.flags.c_contiguous and C.flags.owndata
+    assert F.flags.f_contiguous and not F.flags.c_contiguous
+    assert T.flags.owndata and not T.flags.c_contiguous and not T.flags.f_contiguous, T.flags
+    assert not V.flags.c_contiguous and not V.flags.owndata
+    assert SUB.flags.c_contiguous and not SUB.flags.owndata
+    for k in ("F", "T", "view", "sub"):
+        assert np.array_equal(out[k][0], C)
+    return out
+
+
+def layout_sweep(ph, fc, qs, exp, scale):
+    """every (arg, route, mem, kernel) of spec/DynMatLayout.tla on one session -> (runs, worst, bad list)"""
+    from phonopy.harmonic.dynamical_matrix import DynamicalMatrix, get_dynamical_matrix, run_dynamical_matrix_solver_c
+
+    qs = np.array(qs, dtype="double", order="C")
+    exp = np.array(exp)
+    tabs = {"batch": {}, "C": {}, "Py": {}}
+    runs, bad = [], []
+    worst = 0.0
+
+    def evaluate(get_dm, batch, qarg):
+        """-> {kern: array of D at the q-points}"""
+        out = {}
+        out["batch"] = np.array(batch(qarg))
+        dmo = get_dm()
+        for lang in ("C", "Py"):
+            mats = []
+            for i in range(len(qs)):
+                dmo.run(qarg[i], lang=lang)
+                mats.append(np.array(dmo.dynamical_matrix))
+            out[lang] = np.array(mats)
+        return out
+
+    def log(arg, route, mem, vclass, fn):
+        nonlocal worst
+        res, err = None, None
+        try:
+            with contextlib.redirect_stdout(io.StringIO()):
+                res = fn()
+        except Exception as e:
+            err = repr(e)
+        for kern in ("batch", "C", "Py"):
+            run = dict(arg=arg, route=route, mem=mem, kern=kern, vclass=vclass, status="ok" if res is not None else "refused",
+                       dtok=0, dOK=False)
+            if res is not None:
+                D = res[kern]
+                run["dtok"] = _tok(tabs[kern], D)
+                if vclass == "exact":
+                    e1 = float(np.abs(D - exp).max() / scale) if D.shape == exp.shape else np.inf
+                    worst = max(worst, e1)
+                    run["dOK"] = bool(e1 <= TOL_DM)
+                    if not run["dOK"]:
+                        bad.append(dict(run, err=e1, returned_D_first_q=D[0].tolist() if D.ndim == 3 else None))
+                else:
+                    run["dOK"] = True
+            elif not (mem == "f32" and arg == "fc"):
+                bad.append(dict(run, error=err))
+            runs.append(run)
+
+    def batch_setter(q):
+        ph.run_qpoints(q, with_dynamical_matrices=True)
+        return ph.get_qpoints_dict()["dynamical_matrices"]
+
+    variants = fc_variants(fc)
+    for mem, (arr, vclass) in variants.items():
+        def via_setter(arr=arr):
+            ph.force_constants = arr
+            return evaluate(lambda: ph.dynamical_matrix, batch_setter, qs)
+
+        def via_ctor(arr=arr):
+            dm = DynamicalMatrix(ph.supercell, ph.primitive, arr)
+            return evaluate(lambda: dm, lambda q: run_dynamical_matrix_solver_c(dm, q), qs)
+
+        def via_factory(arr=arr):
+            dm = get_dynamical_matrix(arr, ph.supercell, ph.primitive)
+            return evaluate(lambda: dm, lambda q: run_dynamical_matrix_solver_c(dm, q), qs)
+
+        log("fc", "setter", mem, vclass, via_setter)
+        log("fc", "ctor", mem, vclass, via_ctor)
+        log("fc", "factory", mem, vclass, via_factory)
+    # q-point arrays
+    C = variants["C"][0]
+    ph.force_constants = C
+    qbig = np.full((2 * len(qs), 3), 0.123)
+    qbig[::2] = qs
+    for mem, qarg in (("F", np.asfortranarray(qs)), ("view", qbig[::2]), ("list", qs.tolist())):
+        log("q", "call", mem, "exact", lambda qarg=qarg: evaluate(lambda: ph.dynamical_matrix, batch_setter, qarg))
+    # masses (the catalogue's masses are small integers: exact in float32)
+    m = np.array(ph.primitive.masses, dtype="double")
+    mbig = np.full(2 * len(m), 1.5)
+    mbig[::2] = m
+    for mem, marg in (("view", mbig[::2]), ("list", m.tolist()), ("f32", m.astype(np.float32))):
+        def via_masses(marg=marg):
+            ph.masses = marg
+            return evaluate(lambda: ph.dynamical_matrix, batch_setter, qs)
+        log("mass", "setter", mem, "exact", via_masses)
+    ph.masses = m
+    ph.force_constants = C
+    return runs, worst, bad
+
+
 def _worker(job_path, out_path):
     from phonopy import Phonopy
     from phonopy.structure.atoms import PhonopyAtoms
